@@ -187,6 +187,18 @@ def adopted (s : BS) : Bool :=
   | some b => b.st.updateRevision = "" || b.st.updateRevision = s.world.updateRevision
   | none => false
 
+/-- the BatchRelease (if there is one) supervises the release the way the Rollout controller left it — Progressing, batch
+    partition set, not in deletion — and has recorded the revision it releases, which is not the workload's newer one
+    (the complement of `adopted`: known finding `supersedeBeforeInit`); the CloneSet reports pods that are not of the update
+    revision (otherwise the executor takes the release for promoted) -/
+def brSupervises (s : BS) : Bool :=
+  match s.br, s.world.wl with
+  | none, _ => true
+  | some b, some wl =>
+    b.partition.isSome && !b.deleting && b.st.phase = .progressing && b.st.updateRevision ≠ "" &&
+    b.st.updateRevision ≠ s.world.updateRevision && decide (wl.status.replicas ≠ wl.status.updated)
+  | some _, none => false
+
 /-- everything a reconciler can change about what is exposed: the CloneSet's update settings and markers, the HPAs, the
     network objects, the BatchRelease's plan -/
 structure WlKnobs where
